@@ -56,6 +56,8 @@ func main() {
 		os.Exit(manifest())
 	case "vocab":
 		os.Exit(rules.Vocab())
+	case "idents":
+		os.Exit(rules.Idents())
 	case "ssa":
 		// debug: gsa ssa <pkg> <func> — print the normalised SSA of one function
 		os.Exit(rules.DumpSSA(os.Args[2], os.Args[3]))
